@@ -238,18 +238,19 @@ parseinit(struct scope *s, struct type *t)
 				focus(&p);
 		}
 		if (consume(TLBRACE)) {
+			if (p.cur == p.sub) {
+				/* the brace opens the first element of the array */
+				if (p.cur->type->prop & PROPSCALAR)
+					error(&tok.loc, "nested braces around scalar initializer");
+				assert(p.cur->type->kind == TYPEARRAY);
+				focus(&p);
+			}
 			if (p.cur)
 				initclear(&p, p.sub->offset, p.sub->offset + p.sub->type->size);
 			if (consume(TRBRACE)){
 				if (p.sub->type->incomplete)
 					error(&tok.loc, "array of unknown size has empty initializer");
 				goto next;
-			}
-			if (p.cur == p.sub) {
-				if (p.cur->type->prop & PROPSCALAR)
-					error(&tok.loc, "nested braces around scalar initializer");
-				assert(p.cur->type->kind == TYPEARRAY);
-				focus(&p);
 			}
 			p.cur = p.sub;
 			p.cur->iscur = true;
